@@ -178,7 +178,7 @@ fn check_monotone_kraft(lf: &LenFn, ctx: &Ctx, rep: &mut Report) {
     let radius: u64 = ctx.pick(4, 1 << 8, 1 << 8);
     for i in 1..=64u32 {
         let c: u128 = 1u128 << i;
-        let lo = (c - radius as u128).min(DOM_MAX as u128) as u64;
+        let lo = c.saturating_sub(radius as u128).min(DOM_MAX as u128) as u64;
         let hi = (c + radius as u128).min(DOM_MAX as u128) as u64;
         if lo >= hi {
             continue;
